@@ -923,6 +923,34 @@ def sx_len(o):
     return f(o)
 
 
+def _minmax_rendered(items, is_min):
+    """min / max of texts that are rendered numbers: Python compares them as text, i.e. by their decimal digits from the left
+    ("10" < "9"). Modelled for numbers in [0, 10^6): left-aligned digits first, the shorter text first on a tie."""
+    def value(text):
+        z = ENG.token_back.get(text)
+        if z is None:
+            if not text.isdigit():
+                raise Concretised("text comparison of %r" % text)
+            z = z3.IntVal(_o_int(text))
+        if not ENG.branch(z3.And(z >= 0, z < 10 ** 6)):
+            raise Concretised("text comparison of a rendered number outside [0, 10^6)")
+        return z
+
+    def aligned(z):
+        out = z
+        for digits in (5, 4, 3, 2, 1):
+            out = z3.If(z < 10 ** digits, z * 10 ** (6 - digits), out)
+        return out
+    acc, zacc = items[0], value(items[0])
+    for item in items[1:]:
+        zi = value(item)
+        less = z3.Or(aligned(zi) < aligned(zacc), z3.And(aligned(zi) == aligned(zacc), zi < zacc))
+        more = z3.Or(aligned(zi) > aligned(zacc), z3.And(aligned(zi) == aligned(zacc), zi > zacc))
+        if ENG.branch(less if is_min else more):
+            acc, zacc = item, zi
+    return acc
+
+
 def _minmax(is_min):
     orig = _o_min if is_min else _o_max
 
@@ -933,6 +961,8 @@ def _minmax(is_min):
         if not items:
             return orig(items)
         if not any(type(i) in _SYM_TYPES for i in items):
+            if all(type(i) is _o_str for i in items) and any("§" in i for i in items):
+                return _minmax_rendered(items, is_min)
             return orig(items)
         acc = items[0]
         for i in items[1:]:
